@@ -332,6 +332,9 @@ func checkC05(c *Ctx) {
 			"Run's error path does not park the program counter at the end of the restored function: the next evaluation would re-run or resume the failed code")
 	}
 
+	// ---------------- C05-STOP: a failed parse leaves no live coroutine behind the next load
+	c.checkParserStopOrder("C05-STOP")
+
 	// ---------------- C05-RESET
 	if pt := c.mustFn("C05-RESET", "Parser.ParseTokens"); pt != nil {
 		r1 := c.fn("Parser.Reset")
